@@ -127,6 +127,26 @@ func RegisterSV(ld *Loaded) {
 		p.inputs = append(p.inputs, Input{Name: p.inputName("param:" + name), Kind: "choice", N: v})
 		return v
 	})
+	reg("FloatSame", func(fr *frame, args []value) value {
+		p := fr.i.path
+		return p.mkBool(p.ts.Eq(p.term(args[1]), p.term(args[2])))
+	})
+	reg("All", func(fr *frame, args []value) value {
+		p := fr.i.path
+		r := p.ts.Bool(true)
+		for _, a := range varargs(args[1]) {
+			r = p.ts.And(r, p.term(a))
+		}
+		return p.mkBool(r)
+	})
+	reg("Any", func(fr *frame, args []value) value {
+		p := fr.i.path
+		r := p.ts.Bool(false)
+		for _, a := range varargs(args[1]) {
+			r = p.ts.Or(r, p.term(a))
+		}
+		return p.mkBool(r)
+	})
 	reg("Assume", func(fr *frame, args []value) value {
 		p := fr.i.path
 		switch c := args[1].(type) {
@@ -398,7 +418,11 @@ func (p *Path) obsTerms() []*Term {
 			case symFloat:
 				ts = append(ts, x.t)
 			case symString:
-				for _, b := range x.b {
+				if x.tok != nil && !x.tok.done {
+					ts = append(ts, x.tok.v.t)
+					continue
+				}
+				for _, b := range strBytes(x) {
 					if si, ok := b.(symInt); ok {
 						ts = append(ts, si.t)
 					}
@@ -421,8 +445,15 @@ func (p *Path) evalObsVal(v interface{}, mv map[*Term]uint64) interface{} {
 		}
 		return math.Float64frombits(mv[x.t])
 	case symString:
-		bs := make([]byte, len(x.b))
-		for i, b := range x.b {
+		if x.tok != nil && !x.tok.done {
+			if kindSigned(x.tok.v.k) {
+				return strconv.FormatInt(sext(mv[x.tok.v.t], x.tok.v.t.sort.w), 10)
+			}
+			return strconv.FormatUint(mv[x.tok.v.t], 10)
+		}
+		xb := strBytes(x)
+		bs := make([]byte, len(xb))
+		for i, b := range xb {
 			switch b := b.(type) {
 			case uint8:
 				bs[i] = b
